@@ -39,7 +39,7 @@ static int enc(const struct cstl_dlist_node *p)
 static int cmp(const void *a, const void *b, void *p)
 {
     e_check_priv(p);
-    return ((const struct el *)a)->val - ((const struct el *)b)->val;
+    return e_cmp3(((const struct el *)a)->val, ((const struct el *)b)->val);
 }
 
 static void drv_setup(int argc, char **argv)
